@@ -111,6 +111,9 @@ LAWS = {
 }
 
 
+NO_LAZY = set()
+
+
 def build(tier, seed, known):
     plan = Plan(prop="C16")
     n = 3 if tier == "quick" else 4
@@ -125,6 +128,19 @@ def build(tier, seed, known):
         pp += pres + ["not (%s)" % e for e in known_exclusions(known, fam)]
         src += fn_src("law_" + lname, params, pp, ["a = list(a)" if "a:" in params else "pass", "b = list(b)" if "b:" in params else "pass", "return (%s) or explain(%r)" % (expr, lname)])
         plan.obs.append(Ob("law_" + lname, fam, "m", "law_" + lname, 150 if tier == "quick" else 600, "confirmed", "law %s: %s" % (lname, expr[:160]), "integer lists len<=%d (as stated per law), unbounded ints" % n))
+    # the same laws with the list arguments given lazily (the builtins accept LazyLists wherever they accept lists)
+    for lname, (params, pres, expr) in LAWS.items():
+        if lname in NO_LAZY or "list(a)" not in expr or "lazy_input" in lname:
+            continue
+        lz = expr.replace("list(a)", "LazyList(iter(list(a)))").replace("list(b)", "LazyList(iter(list(b)))")
+        pp = []
+        if "a:" in params and not any(p.startswith("len(a) <=") for p in pres):
+            pp.append("len(a) <= %d" % n)
+        if "b:" in params and not any(p.startswith("len(b) <=") for p in pres):
+            pp.append("len(b) <= %d" % n)
+        pp += pres
+        src += fn_src("lazy_" + lname, params, pp, ["a = list(a)" if "a:" in params else "pass", "b = list(b)" if "b:" in params else "pass", "return (%s) or explain(%r)" % (lz, lname)])
+        plan.obs.append(Ob("lazy_" + lname, "lawlazy:" + lname, "m", "lazy_" + lname, 150 if tier == "quick" else 600, "confirmed", "law %s with lazy list arguments" % lname, "integer lists len<=%d, given as LazyLists" % n))
     src += fn_src("twin_sort", "a: List[int]", ["len(a) <= 3"], ["return F(vy_sort(list(a), C())) == list(a)"])
     plan.obs.append(Ob("twin_sort", "law:sort_ordered_perm", "m", "twin_sort", 60, "refuted", "reachability twin (wrong law)"))
     plan.modules["m"] = src
